@@ -349,6 +349,16 @@ class KeyedSet(Generic[ItemType, KeyType], MutableSet, KeyedBase):  # pylint: di
     def __iand__(self, other):
         return super().__iand__(self._keyed_operand(other))
 
+    def __ior__(self, other):
+        # All or nothing, like `KeyedList.extend`: a refused item does not
+        # leave the items before it added.
+        before = dict(self._dict)
+        try:
+            return super().__ior__(other)
+        except BaseException:
+            self._dict = before
+            raise
+
     def __contains__(self, item_or_key):
         # Check whether item_or_key exists as a key
         try:
